@@ -26,7 +26,7 @@ SITS = ['NewHeight', 'Propose', 'ProposeProp', 'Prevote', 'Precommit', 'PolkaUnk
         'FastSync']
 SCENARIOS = ['block-garbage', 'block-zero-bytes', 'block-nil-header', 'block-nil-data', 'block-nil-lastcommit',
              'block-truncated', 'block-nil-precommit-entries', 'same-header-other-body-late-parts',
-             'same-header-other-data-late-parts']
+             'same-header-other-data-late-parts'] + ['block-absurd-length-%d' % k for k in range(6)]
 POISONS = ['valid'] + ['commitstep-' + b for b in ('ok', 'nilptr', 'short', 'long', 'few', 'many', 'negbits', 'huge')] + \
           ['pol-' + b for b in ('ok', 'nilptr', 'short', 'long', 'few', 'many', 'negbits', 'huge')] + \
           ['nrs-neg-height', 'nrs-huge-height', 'nrs-prev-height', 'nrs-neg-round', 'nrs-huge-round', 'nrs-huge-step',
